@@ -237,9 +237,9 @@ class PinList(Model):
     def m_getattr(self, ex, st, name, node):
         if name == 'free_index':
             def free_index(ex_, st_, args, kwargs, node_):
-                # ASSUMED contract of GrowingList.free_index (a generator expression inside next(); checked by the bounded part):
+                # contract of GrowingList.free_index, proved on its own in circuit_c.targets_free_index (C09 verifies both):
                 # the smallest position holding None, or len(self)
-                ex_.assumed.add('GrowingList.free_index returns the first position holding None, else len(self)')
+                ex_.assumed.add('callee contract: GrowingList.free_index returns the first position holding None, else len(self) (proved separately: circuit_c.targets_free_index)')
                 r = ex_.fv('free', 'int').e
                 n, row = self.lens(st_)[self.nid], self.arr(st_)[self.nid]
                 j = z3.Int('j!fi')
